@@ -20,7 +20,7 @@ func (c15) Size(tier string) Size {
 	return Size{Batches: 16, Cases: 8000}
 }
 func (c15) Rule() string {
-	return "case = schema of 0-5 soft types x 0-4 relationships built coherent and then perturbed with 0..n planted faults (missing target, missing / misnamed / mis-typed inverse, wrong (also empty) FromType on one-way and two-way relationships, self-referential relationships, nil maps); oracle = my own predicate offending(rel): len(Check())==0 iff no offending relationship, len(Check()) >= number of offending relationships, no panic, deep schema fingerprint unchanged. Names include '_' (a_b / b_c style collisions); in 2 of 5 types the Rels map keys are not the relationships' FromName (prefixed, or rotated among siblings): a relationship is what it says, not the key it is stored under. Non-trivial = >= 2 relationships with at least one naming an inverse."
+	return "case = schema of 0-5 soft types x 0-4 relationships built coherent and then perturbed with 0..n planted faults (missing target, missing / misnamed / mis-typed inverse, wrong (also empty) FromType on one-way and two-way relationships, self-referential relationships, nil maps, attributes named like relationships); oracle = my own predicate offending(rel): len(Check())==0 iff no offending relationship, len(Check()) >= number of offending relationships, no panic, deep schema fingerprint unchanged. Names include '_' (a_b / b_c style collisions); in 2 of 5 types the Rels map keys are not the relationships' FromName (prefixed, or rotated among siblings): a relationship is what it says, not the key it is stored under. Non-trivial = >= 2 relationships with at least one naming an inverse."
 }
 func (c15) Assumptions() []string {
 	return []string{"reading: 'reciprocated by a relationship of the target type that names it back' includes the back-reference's target type (the quantifier lists mis-typed inverses separately from misnamed ones)",
@@ -98,6 +98,16 @@ func (m c15) run(c *Ctx, order []string, types map[string][]jsonapi.Rel, nilMaps
 				c.Count("rels_stored_under_another_key")
 			}
 			typ.Rels[key] = r
+			// attributes named like relationships (of this type, or like the inverse a relationship of another
+			// type names): Check is about relationships, whatever the attributes are called
+			if typ.Attrs != nil && strSeed(tn+r.FromName+r.ToName)%4 == 0 {
+				for _, an := range []string{r.FromName, r.ToName} {
+					if an != "" {
+						typ.Attrs[an] = jsonapi.Attr{Name: an, Type: jsonapi.AttrTypeString}
+						c.Count("attributes_named_like_relationships")
+					}
+				}
+			}
 			nrels++
 			if r.ToName != "" {
 				twoWay++
